@@ -37,6 +37,9 @@ type Val struct {
 	BVOrig string
 	BVW    int
 	Typ    types.Type
+	// KSlice produced by athead(k, e) in a specification: the element contents are read in this state's heap (the head of
+	// loop k), not in the current one — lets a lemma relate an array before and after a store
+	HeapSt *State
 }
 
 func pow2(n int) string {
